@@ -105,7 +105,12 @@ func (o *runObs) safety() (prop, what string) {
 // size 1): everything read was delivered and every reported checkpoint's
 // barrier reached every operator. stuckOK: no time-outs configured, the tail
 // of each operator's records may still sit in the batchers.
-func (o *runObs) complete(stuckOK bool) (prop, what string) {
+//
+// eoi: the source reported end of input. Then nothing will ever push the tail
+// out; the property ("every record read is delivered", for delay 0 too) is
+// broken. The code as it is does this (known finding Dev_NoFlushAtEndOfInput:
+// the loop's SourceComplete branch with its Flush is unreachable).
+func (o *runObs) complete(stuckOK, eoi bool) (prop, what, known string) {
 	del := map[Item]bool{}
 	for _, st := range o.streams {
 		for _, it := range st {
@@ -124,16 +129,20 @@ func (o *runObs) complete(stuckOK bool) (prop, what string) {
 				continue
 			}
 			if missingTail > 0 {
-				return "C04", fmt.Sprintf("a record of operator %d read before %v was never delivered although %v was", op, r, r)
+				return "C04", fmt.Sprintf("a record of operator %d read before %v was never delivered although %v was", op, r, r), ""
 			}
 		}
 		if missingTail > 0 && (!stuckOK || missingTail > 2*(o.maxSize-1)) {
-			return "C04", fmt.Sprintf("%d record(s) of operator %d were read but never delivered (run is quiescent)", missingTail, op)
+			return "C04", fmt.Sprintf("%d record(s) of operator %d were read but never delivered (run is quiescent)", missingTail, op), ""
+		}
+		if missingTail > 0 && eoi {
+			return "C04", fmt.Sprintf("the source reported end of input but the last %d record(s) of operator %d stay in the batchers for ever "+
+				"(no batch time-out configured, the runner never flushes at end of input)", missingTail, op), "Dev_NoFlushAtEndOfInput"
 		}
 		if !stuckOK {
 			for _, c := range o.ckpts {
 				if !del[Item{T: "b", A: c.N}] {
-					return "C04", fmt.Sprintf("barrier %d never reached any operator", c.N)
+					return "C04", fmt.Sprintf("barrier %d never reached any operator", c.N), ""
 				}
 				found := false
 				for _, it := range o.streams[oi] {
@@ -142,12 +151,12 @@ func (o *runObs) complete(stuckOK bool) (prop, what string) {
 					}
 				}
 				if !found {
-					return "C04", fmt.Sprintf("barrier %d never reached operator %d", c.N, op)
+					return "C04", fmt.Sprintf("barrier %d never reached operator %d", c.N, op), ""
 				}
 			}
 		}
 	}
-	return "", ""
+	return "", "", ""
 }
 
 // restartUnion: run 1 up to barrier n, then run 2 started from the positions
